@@ -178,6 +178,8 @@ var ledgerSpecs = []ledgerSpec{
 			{"cancelled-proposals", ledger.Cfg{Nodes: []string{"G"}, Supply: sp(10, 0), Menu: []ledger.TxSpec{t1, t3, t7, mx}, ProposeCancel: []int{0, 1, 2}, Props: only("C03")}, d - 1, 0, 0},
 			// gossip deliveries whose caller goes away, followed by the ordinary delivery of the same vertex
 			{"cancelled-deliveries", ledger.Cfg{Nodes: []string{"G", "N1"}, Supply: sp(10, 0), Menu: []ledger.TxSpec{t1, t3, t7}, MaxProposeNodes: 1, DeliverCancel: []int{0, 1, 2}, Tick: true, Props: only("C03")}, d - 1, 0, 0},
+			// a chain delivered in any order with retry ticks until the (scaled) orphan buffer gives a vertex up, then delivered again
+			{"chain3-any-order+retries-exhausted", ledger.Cfg{Nodes: []string{"G", "N1"}, Supply: sp(10, 0), Menu: nil, Tick: true, Dup: true, Prefix: []string{"P:0:p1", "P:0:p2", "P:0:p3"}, Props: only("C03")}, d + 2, 0, 0},
 			// data-only (contract) vertices in the truncated region, re-offered afterwards
 			{"contracts+truncate", ledger.Cfg{Nodes: []string{"G"}, Supply: sp(10, 0), Menu: []ledger.TxSpec{t1, {Label: "cx", From: "R", To: "B", Data: "d"}, {Label: "cy", From: "A", To: "B", Data: "d"}, cfl2("c7")}, Truncate: true,
 				Prefix: []string{"P:0:c1", "P:0:p1"}, Props: only("C03")}, d, 0, 0},
